@@ -744,7 +744,10 @@ func runPerRuneConst(p *Program, r *RuleResult) {
 			}
 		}
 	}
-	for _, fn := range fns {
+	// constCost: "" when the function does a bounded amount of work per call, else why not;
+	// first-party callees are judged the same way (no recursion).
+	var constCost func(fn *ssa.Function, stack map[*ssa.Function]bool) string
+	constCost = func(fn *ssa.Function, stack map[*ssa.Function]bool) string {
 		view := p.View(fn)
 		bad := ""
 		if len(view.Loops()) > 0 {
@@ -782,12 +785,26 @@ func runPerRuneConst(p *Program, r *RuleResult) {
 			if sc.Pkg != nil && sc.Pkg.Pkg.Path() == "bufio" {
 				continue
 			}
+			if sc.Pkg != nil && sc.Pkg.Pkg.Path() == parserPkg && len(sc.Blocks) > 0 && !stack[sc] && len(stack) < 4 {
+				stack[sc] = true
+				why := constCost(sc, stack)
+				delete(stack, sc)
+				if why == "" {
+					continue
+				}
+				bad = "it calls " + sc.String() + " at " + p.instrPos(c) + ", of which: " + why
+				continue
+			}
 			bad = "it calls " + sc.String() + " at " + p.instrPos(c)
 		}
+		return bad
+	}
+	for _, fn := range fns {
+		bad := constCost(fn, map[*ssa.Function]bool{fn: true})
 		if bad != "" {
 			r.add(fnName(fn), "constant-work-per-rune", Violated, p.pos(fn.Pos()), "this function runs once per rune of the input and "+bad+": the cost of scanning is no longer proportional to the length of the text")
 		} else {
-			r.add(fnName(fn), "constant-work-per-rune", Holds, p.pos(fn.Pos()), "no loop, no slice copy, only the buffered reader's rune functions")
+			r.add(fnName(fn), "constant-work-per-rune", Holds, p.pos(fn.Pos()), "no loop, no slice copy, only the buffered reader's rune functions and loop-free helpers of the package")
 		}
 	}
 }
